@@ -199,6 +199,7 @@ type Exec struct {
 	tierVals  map[string]int
 	sleep     map[string]footprint
 	fdCache   map[*pbFieldInfo]*PRField
+	freshChoice bool
 }
 
 type pathEnd struct {
@@ -383,6 +384,11 @@ func (ex *Exec) choose(kind string, n int, cond func(i int) *smt.Term) int {
 		if c.IsFalse() {
 			continue
 		}
+		if ex.freshChoice {
+			// the alternatives constrain a fresh variable only: each is feasible whenever the path condition is
+			feas = append(feas, i)
+			continue
+		}
 		// the last alternative of a 2-way branch is feasible if the first is not (pc is sat)
 		if n == 2 && i == 1 && len(feas) == 0 && isNegation(cond(0), c) {
 			feas = append(feas, i)
@@ -543,7 +549,7 @@ func modelValue(kind string, v smt.ModelVal) any {
 	}
 	w := v.Sort.W
 	switch kind {
-	case "uint8", "uint32", "uint64", "uint":
+	case "uint8", "uint32", "uint64", "uint", "strord":
 		return fmt.Sprintf("%d", v.U)
 	}
 	if w < 64 {
